@@ -1,7 +1,8 @@
 (* C17 -- Pointers set for a test are restored after it; plugin actions nest properly.
-   Only statements; every proof is `exact <lemma>` into C17_Proofs.v / C17_Links.v / C17_Chain.v / C17_Run.v / C17_Reinstall.v. *)
+   Only statements; every proof is `exact <lemma>` into C17_Proofs.v / C17_Links.v / C17_Chain.v / C17_Run.v / C17_Reinstall.v /
+   C17_Process.v. *)
 From Coq Require Import NArith Arith Bool List.
-From CppUVerif Require Import gen.Gen_Common C17_Model C17_Proofs C17_Links C17_Chain C17_Run C17_Reinstall.
+From CppUVerif Require Import gen.Gen_Common C17_Model C17_Proofs C17_Links C17_Chain C17_Run C17_Reinstall C17_ModelP C17_Process.
 Import ListNotations.
 
 (* every test (any statements in setup/body/teardown, any outcome) started with an empty table: after SetPointerPlugin's
@@ -157,10 +158,88 @@ Theorem C17_runner_restores : forall st t, good st -> (forall p, In p (s_chain s
 Proof. exact runner_restores. Qed.
 Print Assumptions C17_runner_restores.
 
-(* the executable oracle used on the implementation's observations accepts every model observation *)
-Theorem C17_run_meets_spec : forall s, valid s = true -> spec s (run s) = true.
+(* the executable oracle accepts every model observation -- registry level (one registry, no command lines) *)
+Theorem C17_registry_run_meets_spec : forall s, valid s = true -> spec s (run s) = true.
 Proof. exact run_meets_spec. Qed.
+Print Assumptions C17_registry_run_meets_spec.
+
+(* ---- several runs in one process, each with its own command line (C17_ModelP.v) *)
+(* the executable oracle used on the implementation's observations accepts every model observation, for every valid session
+   of the extended language: registry operations, tests that pass / fail / THROW, registry runs, runner invocations with any
+   command line (-e -f -p -v -vv -c -r<n>), UtestShell::setRethrowExceptions / setCrashOnFail calls in between; the model
+   carries rethrowExceptions_, the crashing-terminator switch, the current-test statics and the registry's separate-process
+   switch from run to run *)
+Theorem C17_run_meets_spec : forall s, pvalid s = true -> pspec s (prun s) = true.
+Proof. exact prun_meets_spec. Qed.
 Print Assumptions C17_run_meets_spec.
+
+(* more exactly: on a valid session the process-level model gives the observation of the registry-level model on the session
+   with command lines, switch calls and the throw / fail difference erased.  No exception leaves a run. *)
+Theorem C17_runs_erase_command_lines : forall s, pvalid s = true -> plain_items (prun s) = Some (run (lower_session s)).
+Proof. exact prun_erases. Qed.
+Print Assumptions C17_runs_erase_command_lines.
+
+(* a runner invocation reads none of the process-wide switches it finds: whatever earlier runs or API calls left behind (any
+   globals g, g'), observation, registry, pointers, whether an exception leaves it, and the rethrow switch afterwards are the same *)
+Theorem C17_run_depends_on_own_command_line : forall g g' sep st cl ts,
+  let A := pstep (mkP g sep st false) (PRunner cl ts) in
+  let B := pstep (mkP g' sep st false) (PRunner cl ts) in
+  snd A = snd B /\ p_st (fst A) = p_st (fst B) /\ p_dead (fst A) = p_dead (fst B) /\ p_sep (fst A) = p_sep (fst B) /\
+  g_rethrow (p_g (fst A)) = g_rethrow (p_g (fst B)).
+Proof. exact runner_own_cmdline. Qed.
+Print Assumptions C17_run_depends_on_own_command_line.
+
+(* ... so it behaves as it would in a fresh process on the same registry *)
+Theorem C17_run_as_if_alone : forall P cl ts, p_dead P = false ->
+  snd (pstep P (PRunner cl ts)) = snd (pstep (mkP init_globals (p_sep P) (p_st P) false) (PRunner cl ts)).
+Proof. exact runner_as_if_alone. Qed.
+Print Assumptions C17_run_as_if_alone.
+
+(* -v / -vv, -c and -f change nothing that is observed *)
+Theorem C17_output_options_change_nothing : forall cl v c f P ts,
+  snd (pstep P (PRunner {| cl_e := cl_e cl; cl_f := f; cl_p := cl_p cl; cl_v := v; cl_c := c; cl_rep := cl_rep cl |} ts)) =
+  snd (pstep P (PRunner cl ts)).
+Proof. exact runner_output_options. Qed.
+Print Assumptions C17_output_options_change_nothing.
+
+(* between any two operations of a valid session: no exception has left a run, currentTest_ / testResult_ are back, the
+   pointer table is empty, the registry is well-formed and its links are the chain *)
+Theorem C17_between_runs : forall s1 s2, pvalid (s1 ++ s2) = true ->
+  p_dead (pexec init_pstate s1) = false /\ g_stale (p_g (pexec init_pstate s1)) = false /\
+  s_tbl (p_st (pexec init_pstate s1)) = [] /\ good (p_st (pexec init_pstate s1)).
+Proof. exact between_runs. Qed.
+Print Assumptions C17_between_runs.
+
+(* where exceptions are not rethrown (or the test has no throw statement) a test that throws -- std::exception or an int, from
+   setup, body or teardown, after any redirections -- is run exactly like the test that fails at that statement: teardown runs,
+   the post actions run, nothing leaves runOneTestInCurrentProcess *)
+Theorem C17_caught_throw_is_a_failure : forall rt st t, rt && has_throw t = false ->
+  run_ytest rt st t = (fst (run_xtest st (lower t)), snd (run_xtest st (lower t)), false).
+Proof. exact run_ytest_lower. Qed.
+Print Assumptions C17_caught_throw_is_a_failure.
+
+(* -p: tests run in forked children.  For tests that leave the registry alone, on a registry without acting plugins, the
+   parent ends with exactly the state and observation of the run in the current process *)
+Theorem C17_separate_process_loses_nothing : forall rt ts st r', rt && existsb has_throw ts = false -> good st -> calm (s_reg st) ->
+  existsb has_acts ts = false -> valid_tests (s_reg st) (map lower ts) = Some r' ->
+  run_ytests rt true st ts = (fst (run_tests st (map lower ts)), snd (run_tests st (map lower ts)), false).
+Proof. exact run_ytests_sep. Qed.
+Print Assumptions C17_separate_process_loses_nothing.
+
+(* refuted: the runner that only ever switches rethrowing ON (red-team change C17-2 of round 5): after a run without -e, a run
+   WITH -e in which a test redirects a pointer and throws -- the exception leaves the runner *)
+Theorem C17_rethrow_only_switched_on_refuted : ~ (forall s, pvalid s = true -> pspec s (prun_only_on s) = true).
+Proof. exact only_on_refuted. Qed.
+Print Assumptions C17_rethrow_only_switched_on_refuted.
+
+(* refuted, hence excluded by `pvalid`: a throwing test where rethrowing is on (no post actions, pointer not restored: that is
+   what the switch is for), and registry actions of tests that -p runs in a child (lost with the child) *)
+Theorem C17_rethrown_test_refuted : ~ (forall s, pvalid_any_throw s = true -> pspec s (prun s) = true).
+Proof. exact rethrown_refuted. Qed.
+Print Assumptions C17_rethrown_test_refuted.
+Theorem C17_forked_registry_actions_refuted : ~ (forall s, pvalid_any_sep s = true -> pspec s (prun s) = true).
+Proof. exact sep_actions_refuted. Qed.
+Print Assumptions C17_forked_registry_actions_refuted.
 
 (* ---- plugin objects that are removed and installed again *)
 (* installPlugin on an object that is outside the chain (removed by name or dropped by resetPlugins earlier): it is the new
